@@ -21,6 +21,55 @@ pub fn handle_getset(storage: &mut EngineModel, db: usize, parts: &[RespFrame]) 
 //@@ body
 //@@ end
 
+// ======================= MSET =========================
+/// the (key, value) pairs MSET names: arguments 1,2 / 3,4 / ...
+pub open spec fn mset_pairs(parts: Seq<RespFrame>) -> Seq<(Vec<u8>, Vec<u8>)> {
+    Seq::new(((parts.len() - 1) / 2) as nat, |j: int| (arg_vec(parts, 2 * j + 1)->Some_0, arg_vec(parts, 2 * j + 2)->Some_0))
+}
+/// the dataset / the TTL table after the first n pairs have been written, in order (a later pair for the same key wins; every written key loses its TTL)
+pub open spec fn mset_ds(ds: DS, db: int, p: Seq<(Vec<u8>, Vec<u8>)>, n: int) -> DS
+    decreases n
+{ if n <= 0 { ds } else { mset_ds(ds, db, p, n - 1).insert((db, p[n - 1].0@), DV::Str(p[n - 1].1@)) } }
+pub open spec fn mset_ttl(t: Map<(int, Seq<u8>), int>, db: int, p: Seq<(Vec<u8>, Vec<u8>)>, n: int) -> Map<(int, Seq<u8>), int>
+    decreases n
+{ if n <= 0 { t } else { mset_ttl(t, db, p, n - 1).remove((db, p[n - 1].0@)) } }
+//@@ unit handle_mset fn src/storage/commands/strings.rs handle_mset
+//@@   params drop "storage: &Arc<StorageEngine>" add "storage: &mut EngineModel"
+//@@   rewrite RT "storage.set_string(" "storage.set_string_t("
+//@@   rewrite RT "bytes.as_ref().clone()" "verif_clone_arc_bytes(bytes)"
+//@@   rewrite RFORK 0
+//@@   rewrite RFOR 1 it
+//@@   loop 0
+//@@|     invariant
+//@@|         parts@.len() >= 3, parts@.len() % 2 == 1, i__end == parts@.len(), i__k == 2, 1 <= i__n <= i__end, i__n % 2 == 1,
+//@@|         *storage == *old(storage),
+//@@|         forall|j: int| 1 <= j < i__n ==> (#[trigger] parts@[j] matches RespFrame::BulkString(Some(_))),
+//@@|         pairs@.len() == (i__n - 1) / 2,
+//@@|         forall|j: int| 0 <= j < pairs@.len() ==> #[trigger] pairs@[j] == mset_pairs(parts@)[j],
+//@@|     decreases i__end - i__n,
+//@@   loop 1
+//@@|     invariant
+//@@|         it.seq() == mset_pairs(parts@), it.history@ =~= it.seq().take(it.index@), all_bulk(parts@, 1), parts@.len() >= 3, parts@.len() % 2 == 1,
+//@@|         storage.ds@ == mset_ds(old(storage).ds@, db as int, mset_pairs(parts@), it.index@ as int),
+//@@|         storage.ttl@ == mset_ttl(old(storage).ttl@, db as int, mset_pairs(parts@), it.index@ as int),
+//@@   at "for (key, value) in pairs"
+//@@|     proof { assert(pairs@ =~= mset_pairs(parts@)); assert(all_bulk(parts@, 1)); }
+pub fn handle_mset(storage: &mut EngineModel, db: usize, parts: &[RespFrame]) -> (r: Result<RespFrame>)
+    ensures
+        // C01: a refused MSET — wrong number of arguments, or an argument that is not a bulk string WHEREVER it stands — leaves the dataset as it was
+        (parts@.len() < 3 || parts@.len() % 2 == 0 || !all_bulk(parts@, 1)) ==> cmd_refused(r, old(storage).ds@, final(storage).ds@) && final(storage).ttl@ == old(storage).ttl@,
+        // accepted: every pair is written, in order, and each written key loses its TTL (C02)
+        parts@.len() >= 3 && parts@.len() % 2 == 1 && all_bulk(parts@, 1) && r is Ok ==> (r->Ok_0 is SimpleString)
+            && final(storage).ds@ == mset_ds(old(storage).ds@, db as int, mset_pairs(parts@), mset_pairs(parts@).len() as int)
+            && final(storage).ttl@ == mset_ttl(old(storage).ttl@, db as int, mset_pairs(parts@), mset_pairs(parts@).len() as int),
+        // (r is Err: the engine refused one of the writes — the memory limit — after the earlier pairs had been written; not constrained here)
+        r is Err ==> mem_exhausted_s(final(storage).ds@, final(storage).ttl@),
+//@@ body
+//@@ end
+/// `bytes.as_ref().clone()` on an Arc<Vec<u8>> (RT site): a copy of the argument
+#[verifier::external_body]
+pub fn verif_clone_arc_bytes(b: &Arc<Vec<u8>>) -> (r: Vec<u8>) ensures r == **b, { unimplemented!() }
+
 //@@ unit handle_append fn src/storage/commands/strings.rs handle_append
 //@@   params drop "storage: &Arc<StorageEngine>" add "storage: &mut EngineModel"
 //@@   rewrite R3
